@@ -2,12 +2,52 @@ from props.common import run_pyvc
 from pyvc import runner
 
 PID = "C01"
-FUNCS = []
+RT = "pyrex.ray_tracing."
+FUNCS = [RT + "SpecializedRayTracePath." + f for f in (
+    "_int_terms", "_distance_integral", "_pathlen_integral", "_tof_integral", "_z_int_uniform_correction",
+    "z_integral", "path_length", "tof", "z_uniform")] + \
+    [RT + "BasicRayTracePath." + f for f in (
+        "__init__", "z0", "z1", "n0", "rho", "phi", "beta", "z_turn", "theta", "emitted_direction",
+        "received_direction", "z_integral", "path_length", "tof")] + \
+    [RT + "BasicRayTracer." + f for f in (
+        "__init__", "z0", "z1", "n0", "rho", "max_angle", "expected_solutions", "exists", "solutions",
+        "_get_launch_angle", "direct_angle", "angle_search", "_direct_r")] + \
+    [RT + "SpecializedRayTracer." + f for f in ("_r_distance", "_direct_r", "_indirect_r", "z_uniform")] + \
+    ["pyrex.ice_model.AntarcticIce.index", "pyrex.ice_model.AntarcticIce.depth_with_index"]
 
 
 def setup(rep):
     runner.hash_functions(rep, FUNCS)
-    rep.min_obligations = 3
+    rep.min_obligations = 100
+    rep.clause("closed-forms", "P", "d/dz of _pathlen_integral, _tof_integral, _distance_integral (deep=False) equal "
+               "n/sqrt(n^2-beta^2), n^2/(c sqrt(n^2-beta^2)), beta/sqrt(n^2-beta^2) for symbolic n0,k,a (A3: FTC)")
+    rep.clause("closed-forms-deep", "P", "deep=True branch: derivatives are the frozen-angle integrands (documented "
+               "uniform-index approximation); the size of that approximation is N")
+    rep.clause("closed-forms-vertical", "P", "|beta| <= beta_tolerance branch: derivatives 1, n/c, 0")
+    rep.clause("piecing", "P", "_z_int_uniform_correction is the sum of the per-regime definite integrals for an arbitrary "
+               "pair of antiderivatives, antisymmetric in its limits")
+    rep.clause("composition", "P", "direct path = one leg z0->z1; indirect = legs z0->z_turn and z1->z_turn; z_turn is a "
+               "true turn-over below the surface (n(z_turn)=beta) or the surface; path_length/tof are |z_integral| of the closed forms")
+    rep.clause("snell", "P", "n(z) sin(theta(z)) = beta along the ray; emitted/received directions are unit vectors with "
+               "azimuth phi and n*|horizontal| = beta at both ends; direct rays keep their vertical sense, indirect arrive downward")
+    rep.clause("numeric-trapezoid", "P", "BasicRayTracePath.z_integral / BasicRayTracer._direct_r hand the trapezoid rule the right "
+               "integrand on a grid between the right end points; convergence of the rule is N")
+    rep.clause("tracer-geometry", "P", "tracer works from the lower to the higher endpoint; max_angle is the critical angle")
+    rep.clause("launch-angle", "A", "A6 (idealised brentq): _get_launch_angle returns theta in [0,pi/2] with n(source) sin(theta) = "
+               "n(lower) sin(root) or raises; direct_angle mirrors to pi-theta exactly when the source is higher")
+    rep.clause("ray-arrives", "A", "A6: _direct_r/_indirect_r are the radial-distance integrals minus rho, so a root is a ray that "
+               "arrives; inside the 1e-6 rad link range below max_angle _indirect_r is a linear interpolation (N)")
+    rep.clause("solution-count", "P", "expected_solutions has 0 or 2 flags; solutions keeps exactly the flagged entries; "
+               "exists iff non-empty")
+    rep.clause("attenuation-quadrature", "N", "change of variables near the turning point and trapezoid accuracy")
+    rep.clause("degenerate-horizontal-direct", "N", "direct ray launched exactly horizontally (cos(theta0)=0): np.sign gives 0 "
+               "and the received direction is not a unit vector; measure-zero input excluded by assumption")
+    rep.assume("A1 floats are mathematical reals")
+    rep.assume("A2 ground axiom instances for exp/log/sqrt/sin/cos/arcsin (pyvc/reals.py)")
+    rep.assume("A3 fundamental theorem of calculus: an antiderivative's difference is the line integral")
+    rep.assume("A6 scipy.optimize.brentq either raises ValueError/RuntimeError or returns a root in [a,b] (tolerance idealised to 0)")
+    rep.assume("A13 symbolic differentiation rules of pyvc/reals.py:deriv")
+    rep.assume("np.linspace/np.trapz as specified in pyvc/npspec.py (A5)")
 
 
 def run(tier="quick", seed=0, only=None, verbose=False):
